@@ -101,18 +101,17 @@ fn parse_advanced_quantity<'i>(bp: &mut BlockParser<'_, 'i>) -> Option<ParsedQua
 
     let value_tokens = bp.consume_while(|t| !matches!(t, T![word]));
 
-    // the value and the unit have to be separated by blank space, a line
-    // break counts
-    if value_tokens.is_empty()
-        || !matches!(value_tokens.last().unwrap().kind, T![ws] | T![newline])
-    {
-        return None;
-    }
     let value_tokens = {
         // beginning already trimmed
-        let end_pos = value_tokens
+        let end_pos = value_tokens.iter().rposition(not_ws_comment)?;
+        // the value and the unit have to be separated by blank space (a line
+        // break counts), there can be comments next to it
+        if !value_tokens[end_pos + 1..]
             .iter()
-            .rposition(|t| !matches!(t.kind, T![ws] | T![newline] | T![block comment]))?;
+            .any(|t| matches!(t.kind, T![ws] | T![newline]))
+        {
+            return None;
+        }
         &value_tokens[..=end_pos]
     };
 
